@@ -40,6 +40,27 @@ let do_pattern univ = function
          (if p.prec then "1" else "0") (out pr) (matchvec p univ) re)
   | _ -> failwith "pattern: arity"
 
+(* key <algo> <rootid> <pkg> <name> <cmd> <ins> <files> <outs> <deps> <fp> <multiplatform>
+   -> comps (7 hex fields, comma separated) TAB encode_files (hex) or "none" *)
+let hexlist s = List.map fld (split_comma s)
+let pairlist s = List.map (fun e -> match String.split_on_char ':' e with
+    | [a; b] -> (a, b) | _ -> failwith "pair") (split_comma s)
+
+let do_key f =
+  match f with
+  | [_algo; _root; pkg; name; cmd; ins; files; outs; deps; fp; multi] ->
+    let fsl = List.map (fun (p, c) -> (unhex p, if c = "!" then None else Some (fld c))) (pairlist files) in
+    let fs (p : ascii list) = try List.assoc (of_str p) fsl with Not_found -> None in
+    let outs' = List.map (fun (t, i) -> to_str (unhex t ^ "::" ^ unhex i)) (pairlist outs) in
+    let fp' = List.map (fun (k, v) -> (fld k, fld v)) (pairlist fp) in
+    let st = { ts_label = { lpkg = fld pkg; lname = fld name }; ts_cmd = fld cmd; ts_ins = hexlist ins;
+               ts_outs = outs'; ts_deps = hexlist deps; ts_fp = fp';
+               ts_plat = if multi = "1" then None else Some (to_str "lx/a64") } in
+    let cs = String.concat "," (List.map out (comps st)) in
+    let files = if no_inputs st then "none" else out (encode_files fs st) in
+    Printf.sprintf "%s\t%s\t%s" cs files (if wf_state st then "wf" else "nwf")
+  | _ -> failwith "key: arity"
+
 let () =
   let univ = ref [] in
   (try
@@ -50,6 +71,7 @@ let () =
         | "label" :: args -> do_label args
         | "universe" :: [u] -> univ := parse_universe u; "universe\t" ^ string_of_int (List.length !univ)
         | "pattern" :: args -> do_pattern !univ args
+        | "key" :: args -> do_key args
         | cmd :: _ -> "unknown-command " ^ cmd
         | [] -> "empty"
       in
